@@ -2,6 +2,7 @@ package sim
 
 import (
 	"fmt"
+	"os"
 	"sort"
 	"strings"
 	"unsafe"
@@ -264,20 +265,20 @@ func (r *Run) exec(op wx.Op, o *obs) (pv interface{}) {
 		w.Exchange(m.Slots[op.A].H, r.idl(op.B), r.idl(op.C))
 	case OpAssign:
 		h := m.Slots[op.A].H
-		w.Assign(h, ecs.Component{ID: r.ids[op.B], Comp: newValue(c.Comps[op.B], token(h, int(op.B), int(op.C)))})
+		w.Assign(h, ecs.Component{ID: r.ids[op.B], Comp: newValue(c.Comps[op.B], r.tokFor(op))})
 	case OpSet:
 		h := m.Slots[op.A].H
-		w.Set(h, r.ids[op.B], newValue(c.Comps[op.B], token(h, int(op.B), int(op.C))))
+		w.Set(h, r.ids[op.B], newValue(c.Comps[op.B], r.tokFor(op)))
 	case OpWriteGet:
 		h := m.Slots[op.A].H
 		p := w.Get(h, r.ids[op.B])
-		writeValue(c.Comps[op.B], p, token(h, int(op.B), int(op.C)))
+		writeValue(c.Comps[op.B], p, r.tokFor(op))
 	case OpWriteQuery:
 		h := m.Slots[op.A].H
 		q := w.Query(ecs.All(r.ids[op.B]))
 		for q.Next() {
 			if q.Entity() == h {
-				writeValue(c.Comps[op.B], q.Get(r.ids[op.B]), token(h, int(op.B), int(op.C)))
+				writeValue(c.Comps[op.B], q.Get(r.ids[op.B]), r.tokFor(op))
 			}
 		}
 	case OpRelGet:
@@ -363,6 +364,11 @@ func (r *Run) exec(op wx.Op, o *obs) (pv interface{}) {
 	return nil
 }
 
+// tokFor returns the token a value-writing operation stores (see Model.nextVal).
+func (r *Run) tokFor(op wx.Op) uint64 {
+	return r.m.nextTok(int(op.A), int(op.B))
+}
+
 func sameFilter(a, b ecs.Filter) bool {
 	defer func() { _ = recover() }()
 	return a == b
@@ -419,9 +425,6 @@ func (r *Run) Apply(op wx.Op) wx.Result {
 			prop := "C10"
 			if ex.Why == "dead-target" || ex.Why == "second-relation" {
 				prop = "C05"
-			}
-			if r.cfg.Prop == "C10" || r.cfg.Prop == "C05" {
-				prop = r.cfg.Prop
 			}
 			return wx.Result{Prune: true, Fail: r.fail(prop, "nopanic:"+kind+":"+ex.Why,
 				fmt.Sprintf("%s is illegal (%s) but did not panic", r.cfg.OpString(op), ex.Why))}
@@ -534,7 +537,7 @@ func (r *Run) Check() (f *wx.Failure) {
 		}
 	}()
 	or := r.cfg.Oracles
-	if or&OInv != 0 {
+	if or&OInv != 0 && !noInv {
 		if err := r.w.VerifCheckInvariants(); err != nil {
 			msg := err.Error()
 			prop := "C01"
@@ -561,6 +564,10 @@ func (r *Run) Check() (f *wx.Failure) {
 	}
 	return nil
 }
+
+// noInv disables the structural invariant oracle (VERIF_NO_INV=1), to demonstrate that defects are also
+// caught through the public API alone.
+var noInv = os.Getenv("VERIF_NO_INV") != ""
 
 func invClass(s string) string {
 	// keep the words, drop numbers and bracketed details
